@@ -45,3 +45,11 @@ Print Assumptions C11_observed_is_key_count.
 Example C11_example :
   reported [2; 0; 1]%nat [true; false; true] = [2; 0]%nat /\ reported_all [2; 0; 1]%nat = [2; 0; 1]%nat.
 Proof. split; reflexivity. Qed.
+
+(* Tie B (pins): the functions this property's models transcribe read, statement by statement, as they did when the models
+   were written against them; Gen/SourcesGen.v is regenerated from /repo on every run (translator/pins.py). *)
+From GL Require Import Gen.SourcesGen Model.Sources Proofs.PinC11.
+Theorem C11_modelled_functions_are_the_source's :
+  gen_src_apply_gb_reduction = src_apply_gb_reduction.
+Proof. exact pin_apply_gb_reduction. Qed.
+Print Assumptions C11_modelled_functions_are_the_source's.
